@@ -1,7 +1,8 @@
 (** Correspondence checker for C11: decodes a run of the real [Tracker] written by
     harness/props/c11.py and compares it step by step with Model/Diffusion.v.
 
-    Case layout (integers; a float is numerator, denominator):
+    Case layout (integers; a float is written as mantissa m and binary exponent e, value m*2^e —
+    exact, and much shorter to parse than numerator/denominator; [mkF] decodes it):
       D Dz dt sd sdz (2 each)  vadv  nmax
       nmax particle rows:  dx dy u v w (2 each)          -- metric and advective velocity of particle p
       total, then total draws xi (2 each)                 -- the part of the stream the run consumed
@@ -25,11 +26,14 @@ Open Scope Z_scope.
 Definition tol : Q := 1 # 1000000000.
 Definition tol_sd : Q := 1 # 1000000000000.
 
+Definition mkF (m e : Z) : Q :=
+  if 0 <=? e then inject_Z (Z.shiftl m e) else Qmake m (Z.to_pos (Z.shiftl 1 (- e))).
+
 Fixpoint takeq (n : nat) (l : list Z) : list Q * list Z :=
   match n with
   | O => ([], l)
   | S j => match l with
-           | a :: b :: r => let '(qs, r') := takeq j r in (mkQ a b :: qs, r')
+           | a :: b :: r => let '(qs, r') := takeq j r in (mkF a b :: qs, r')
            | _ => ([], [])
            end
   end.
@@ -41,17 +45,19 @@ Fixpoint rows (k : nat) (w : nat) (l : list Z) : list (list Q) * list Z :=
 
 Definition rel_close (t a b : Q) : bool := Qle_bool (Qabs (a - b)) (t * (Qabs a + Qabs b)).
 
-(** one direction of one particle *)
+(** one direction of one particle.  [Qred] only keeps the numbers short (vm_compute works on binary
+    inductive integers); it does not change any value. *)
 Definition check_dir (xs : list Q) (oi : option Z) (c2 a0 a1 adv model : Q) : bool :=
-  let d := (a1 - a0)%Q in
-  let m := (Qabs a0 + Qabs a1 + Qabs adv)%Q in
-  Qle_bool (Qabs (d - model)) (tol * m) &&
+  let d := Qred (a1 - a0) in
+  let adv := Qred adv in
+  let m := Qred (Qabs a0 + Qabs a1 + Qabs adv) in
+  Qle_bool (Qabs (Qred (d - Qred model))) (tol * m) &&
   match oi with
   | Some i => match znth_opt xs i with
-              | Some x => disp_close tol m c2 x (d - adv)
+              | Some x => disp_close tol m (Qred c2) x (Qred (d - adv))
               | None => false
               end
-  | None => zero_close tol m (d - adv)
+  | None => zero_close tol m (Qred (d - adv))
   end.
 
 Definition check_particle (D Dz dt sd sdz : Q) (vadv : bool) (xs : list Q) (k n p : Z)
